@@ -168,3 +168,220 @@ Qed.
    which is every round the strategy publishes (Props/C05.v, c05_strategy_rounds_ascending) *)
 Theorem c19_ascending_round_distinct : forall ps, ascending ps -> NoDup (resp_ttls ps).
 Proof. exact ascending_resp_nodup. Qed.
+
+(* ======================================================================================================================
+   END TO END (Proofs/NatDevice.v, Proofs/NatE2E.v; vocabulary of Props/C02.v: issued, same_trace, run_send).
+     nat_answer sc res p from ex ac acc   res = Ok (Some r); Strategy::validate on r gives acc; StrategyResponse::from(r)
+                                          names p's sequence and carries expected_udp_checksum = ex, actual = ac;
+                                          the response came from [from];
+     snat4 a sp' d                        the datagram d after a source-NAT device: source address a, source port sp',
+                                          UDP checksum updated incrementally per RFC 1624 (Proofs/NatDevice.v);
+     unrewritten_round / single_nat_round shapes of a published round, read off its (expected, actual) pairs. *)
+From TV Require Import Base.Bytes Packet.Checksum Net.Sock Net.ChannelSend Net.SendSpec Net.RecvCommon Net.Recv4 Net.RfcPeer.
+From TV Require Import Proofs.ChecksumProofs Proofs.RecvRoundtrip Proofs.WireShapes Proofs.WireE2E Proofs.NatDevice Proofs.NatE2E.
+
+(* A Dublin/IPv4 probe as the strategy issues it and Ipv4::dispatch_udp_probe builds it (IP identification = sequence,
+   UDP checksum = what make_udp_packet computes over the pattern payload, zero included), crossing NO rewriting device
+   and quoted by any conforming router: the response is accepted, names the probe, and the checksum calc_udp_checksum
+   recomputes from the quoted ports / length / configured pattern EQUALS the quoted one - for every packet size,
+   pattern, port direction, address.  With c19_status: never marked. *)
+Theorem c19_e2e_unrewritten : forall sc cfg rc p,
+  issued sc p -> proto sc = Udp -> multipath sc = Dublin -> same_trace sc cfg rc -> cfg_v4 cfg ->
+  cc_privilege cfg = Privileged -> 28 <= cc_packet_size cfg <= 1024 ->
+  let payload := repeat (cc_payload_pattern cfg) (Z.to_nat (cc_packet_size cfg - 28)) in
+  let ck := udp4_wire_checksum cfg p payload in
+  exists b,
+    run_send BoNetwork cfg [] p = (connect_ops false cfg ++ [SendTo b (cc_target cfg) (p_dest_port p)], Ok tt) /\
+    RecvRoundtrip.u16 b 26 = ck /\
+    forall now me peer, peer4_conforming me peer -> zlen (quote4 me peer b) <= 1024 ->
+      nat_answer sc (recv4 rc now (quote4 me peer b)) p (q_router peer) ck ck true.
+Proof. exact e2e_dublin4_unrewritten. Qed.
+
+(* The same probe after a source-NAT device (new source address a, new source port sp'), quoted by any conforming router
+   beyond it: the quoted checksum is the one of the rewritten datagram; the EXPECTED checksum is recomputed with the
+   tracer's own source address but the QUOTED (rewritten) source port.  The response still passes Strategy::validate
+   exactly when the port direction does not fix the source port or the port was left alone - behind a port-rewriting
+   device a trace with a fixed source port gets no accepted response at all. *)
+Theorem c19_e2e_rewritten : forall sc cfg rc p a sp',
+  issued sc p -> proto sc = Udp -> multipath sc = Dublin -> same_trace sc cfg rc -> cfg_v4 cfg ->
+  cc_privilege cfg = Privileged -> 28 <= cc_packet_size cfg <= 1024 ->
+  length a = 4%nat -> bytes a -> 0 <= sp' < 65536 ->
+  let payload := repeat (cc_payload_pattern cfg) (Z.to_nat (cc_packet_size cfg - 28)) in
+  let ex := udp_ipv4_checksum (udp_dgram sp' (p_dest_port p) 0 payload) (cc_source cfg) (cc_target cfg) in
+  let ac := udp_ipv4_checksum (udp_dgram sp' (p_dest_port p) 0 payload) a (cc_target cfg) in
+  exists b,
+    run_send BoNetwork cfg [] p = (connect_ops false cfg ++ [SendTo b (cc_target cfg) (p_dest_port p)], Ok tt) /\
+    RecvRoundtrip.u16 (snat4 a sp' b) 26 = ac /\
+    forall now me peer, peer4_conforming me peer -> zlen (quote4 me peer (snat4 a sp' b)) <= 1024 ->
+      nat_answer sc (recv4 rc now (quote4 me peer (snat4 a sp' b))) p (q_router peer) ex ac
+        (match port_direction sc with FixedDest _ => true | _ => p_src_port p =? sp' end).
+Proof. exact e2e_dublin4_rewritten. Qed.
+
+(* the device model is faithful: three incremental updates per RFC 1624 eqn. 3 (two address words, the port) of the
+   checksum of a dispatched probe give exactly the checksum recomputed over the rewritten datagram *)
+Theorem c19_rfc1624_update_is_recomputation : forall src dst a sp' tos ttl hck ipid sp dp payload,
+  length src = 4%nat -> length dst = 4%nat -> length a = 4%nat -> bytes src -> bytes dst -> bytes a ->
+  0 <= sp < 65536 -> 0 <= dp < 65536 -> 0 <= sp' < 65536 -> bytes payload -> zlen payload <= 996 ->
+  let uck := udp_ipv4_checksum (udp_dgram sp dp 0 payload) src dst in
+  snat4_checksum a sp' (udp4_probe src dst tos ttl hck ipid sp dp uck payload) =
+  udp_ipv4_checksum (udp_dgram sp' dp 0 payload) a dst.
+Proof. exact snat4_checksum_is_recomputed. Qed.
+
+(* WHEN the first responding hop of a round beyond an address-rewriting device is marked: exactly when the 16-bit word
+   sums of the new and the configured source address differ modulo 65535 (one's-complement arithmetic); whether the
+   port was rewritten too plays no role there *)
+Theorem c19_rewrite_detected_at_first_hop_iff : forall src a dst sp' dp payload,
+  length src = 4%nat -> length dst = 4%nat -> length a = 4%nat -> bytes src -> bytes dst -> bytes a ->
+  0 <= sp' < 65536 -> 0 <= dp < 65536 -> bytes payload -> zlen payload <= 996 ->
+  let ex := udp_ipv4_checksum (udp_dgram sp' dp 0 payload) src dst in
+  let ac := udp_ipv4_checksum (udp_dgram sp' dp 0 payload) a dst in
+  (fst (nat_status_of ex ac None) = NatDetected <-> (word_sum a - word_sum src) mod 65535 <> 0).
+Proof. exact rewrite_detected_at_first_hop_iff. Qed.
+
+(* ... and when a hop in front of the device responded earlier in the round (it quoted the checksum as sent): exactly
+   when address word sum plus port changed modulo 65535 *)
+Theorem c19_rewrite_detected_after_responder_iff : forall src a dst sp sp' dp payload ex,
+  length src = 4%nat -> length dst = 4%nat -> length a = 4%nat -> bytes src -> bytes dst -> bytes a ->
+  0 <= sp < 65536 -> 0 <= sp' < 65536 -> 0 <= dp < 65536 -> bytes payload -> zlen payload <= 996 ->
+  let ck0 := udp_ipv4_checksum (udp_dgram sp dp 0 payload) src dst in
+  let ac := udp_ipv4_checksum (udp_dgram sp' dp 0 payload) a dst in
+  (fst (nat_status_of ex ac (Some ck0)) = NatDetected <-> (word_sum a + sp' - word_sum src - sp) mod 65535 <> 0).
+Proof. exact rewrite_detected_after_responder_iff. Qed.
+
+(* a device that rewrites ONLY the source port, seen by the first responding hop of a round: the quoted checksum differs
+   from the checksum of the probe as sent, yet expected = actual and the hop is NOT marked (the expected value follows
+   the quoted port) *)
+Theorem c19_port_only_rewrite_invisible_at_first_hop : forall src dst sp sp' dp payload,
+  length src = 4%nat -> length dst = 4%nat -> bytes src -> bytes dst ->
+  0 <= sp < 65536 -> 0 <= sp' < 65536 -> 0 <= dp < 65536 -> bytes payload -> zlen payload <= 996 ->
+  let sent := udp_ipv4_checksum (udp_dgram sp dp 0 payload) src dst in
+  let ex := udp_ipv4_checksum (udp_dgram sp' dp 0 payload) src dst in
+  let ac := udp_ipv4_checksum (udp_dgram sp' dp 0 payload) src dst in
+  fst (nat_status_of ex ac None) = NatNotDetected /\ (ac <> sent <-> (sp' - sp) mod 65535 <> 0).
+Proof. exact port_only_rewrite_invisible_at_first_hop. Qed.
+
+(* FALSE on the code - the property's "for the first responding hop, [differs] from the checksum of the probe as sent":
+   concrete witness, end to end (issued probe, dispatched datagram b, port 33434 rewritten to 40000 in front of the first
+   responding hop): the probe left with checksum 58934, the hop quotes 52368, the response is accepted with
+   expected = actual = 52368 and the hop is reported NotDetected *)
+Theorem c19_port_only_rewrite_refuted :
+  issued nat_sc nat_p /\ same_trace nat_sc ex_cfg4 ex_rc4 /\ peer4_conforming [10; 0; 0; 1] nat_peer /\
+  exists b, run_send BoNetwork ex_cfg4 [] nat_p = (connect_ops false ex_cfg4 ++ [SendTo b [10; 0; 0; 2] 33434], Ok tt) /\
+    RecvRoundtrip.u16 b 26 = 58934 /\
+    RecvRoundtrip.u16 (snat4 [10; 0; 0; 1] 40000 b) 26 = 52368 /\
+    nat_outcome (snat4 [10; 0; 0; 1] 40000 b) 52368 52368 /\
+    fst (nat_status_of 52368 52368 None) = NatNotDetected.
+Proof. exact port_only_rewrite_refuted. Qed.
+
+(* FALSE on the code - "a single rewriting device at distance k shows it at the first responding hop at or beyond k":
+   a device that maps 10.0.0.1 to 0.1.10.0 (same 16-bit word sum) leaves the UDP checksum unchanged; every hop beyond
+   it quotes 58934 = expected = the checksum as sent, so no hop is marked whether or not a hop in front responded *)
+Theorem c19_sum_preserving_rewrite_refuted :
+  issued nat_sc nat_p /\ same_trace nat_sc ex_cfg4 ex_rc4 /\ peer4_conforming [10; 0; 0; 1] nat_peer /\
+  exists b, run_send BoNetwork ex_cfg4 [] nat_p = (connect_ops false ex_cfg4 ++ [SendTo b [10; 0; 0; 2] 33434], Ok tt) /\
+    RecvRoundtrip.u16 b 26 = 58934 /\
+    firstn 4 (skipn 12 (snat4 [0; 1; 10; 0] 33434 b)) = [0; 1; 10; 0] /\
+    nat_outcome (snat4 [0; 1; 10; 0] 33434 b) 58934 58934 /\
+    fst (nat_status_of 58934 58934 None) = NatNotDetected /\ fst (nat_status_of 58934 58934 (Some 58934)) = NatNotDetected.
+Proof. exact sum_preserving_rewrite_refuted. Qed.
+
+(* all probes of one round leave with the same UDP checksum (the ports are a function of the round): the e0 below *)
+Theorem c19_same_round_same_checksum : forall sc cfg p1 p2 payload,
+  issued sc p1 -> issued sc p2 -> proto sc = Udp -> multipath sc = Dublin -> p_round p1 = p_round p2 ->
+  udp4_wire_checksum cfg p1 payload = udp4_wire_checksum cfg p2 payload.
+Proof. exact same_round_same_checksum. Qed.
+
+(* WHOLE HISTORIES.  A path without rewriting (every responding probe of every round carries expected = actual = the
+   round's checksum): after any number of rounds through State::update_from_round, in the default flow and in every
+   registered flow, no hop is ever Detected *)
+Theorem c19_history_unrewritten_never_detected : forall ms mf rs s' id,
+  st_run (state_new ms mf) rs = Ok s' -> Forall unrewritten_round rs ->
+  forall i h, nth_error (fs_hops (flow_or_new s' id)) i = Some h -> h_last_nat h <> NatDetected.
+Proof. exact st_run_unrewritten. Qed.
+
+(* one device, general form (the expected values beyond the device are arbitrary: they are recomputed from the quoted,
+   possibly rewritten, port; when no hop in front of the device responds e0 is what the first responding hop recomputes) *)
+Theorem c19_single_device_general : forall before after e0 a1, a1 <> e0 ->
+  Forall (fun ea => fst ea = e0 /\ snd ea = e0) before ->
+  Forall (fun ea => snd ea = a1) after ->
+  (before = [] -> match after with [] => True | ea :: _ => fst ea = e0 end) ->
+  nat_spec None (before ++ after) =
+    repeat NatNotDetected (length before) ++
+    match after with [] => [] | _ :: r => NatDetected :: repeat NatNotDetected (length r) end.
+Proof. exact nat_single_rewrite_gen. Qed.
+
+(* ... over any non-empty history of rounds in which the first responding probe beyond the device sits at distance t0:
+   hop t0 shows Detected, no other hop ever does - the mark stays attributed to that hop *)
+Theorem c19_single_device_history : forall ms rs f' t0, Forall (single_nat_round t0) rs -> rs <> [] ->
+  fs_run (flow_state_new ms) rs = Ok f' ->
+  forall i h, nth_error (fs_hops f') i = Some h ->
+    if Z.of_nat i + 1 =? t0 then h_last_nat h = NatDetected else h_last_nat h <> NatDetected.
+Proof. exact fs_run_single_device. Qed.
+
+(* two devices.  [before] (non-empty) in front of the first, [mid] between them (quote a1), [after] beyond the second
+   (quote a2): each segment carries at most one mark, on its first hop, by comparison with what the previous segment
+   quoted.  With a responding hop between the devices: two marks (when a1 <> e0 and a2 <> a1).  With none: ONE
+   comparison a2 against e0 - the two devices show as one, or as none when the second undoes the first *)
+Theorem c19_two_devices : forall before mid after e0 a1 a2, before <> [] ->
+  Forall (fun ea => fst ea = e0 /\ snd ea = e0) before ->
+  Forall (fun ea => snd ea = a1) mid -> Forall (fun ea => snd ea = a2) after ->
+  nat_spec None (before ++ mid ++ after) =
+    repeat NatNotDetected (length before) ++ seg_status e0 a1 (length mid)
+      ++ seg_status (match mid with [] => e0 | _ => a1 end) a2 (length after).
+Proof. exact nat_two_rewrites. Qed.
+
+(* PER FLOW.  State::update_from_round runs one StateUpdater pass per flow the round goes to (the default flow and the
+   attributed flow): each pass starts with prev_hop_checksum = None and ends carrying the last quoted checksum; nothing
+   is carried from one pass, flow or round into another *)
+Theorem c19_each_pass_starts_from_none : forall s r s' id, dense (st_registry s) -> update_from_round s r = Ok s' ->
+  selects id s r = true ->
+  u_prev_cksum (pass_start (flow_or_new s id) r) = None /\
+  exists u, fold_probes (rr_probes r) (pass_start (flow_or_new s id) r) (rr_probes r) = Ok u /\
+            flow_or_new s' id = u_fs u /\ u_prev_cksum u = carried (responders (rr_probes r)).
+Proof. exact each_pass_starts_from_none. Qed.
+
+(* ... hence the table of the flow a round is attributed to agrees with the default flow on every hop that responded *)
+Theorem c19_flows_agree_on_round : forall s r s' id i h h0, dense (st_registry s) -> update_from_round s r = Ok s' ->
+  selects id s r = true -> In (Z.of_nat i + 1) (resp_ttls (rr_probes r)) ->
+  nth_error (fs_hops (flow_or_new s' id)) i = Some h -> nth_error (fs_hops (flow_or_new s' 0)) i = Some h0 ->
+  h_last_nat h = h_last_nat h0.
+Proof. exact flows_agree_on_round. Qed.
+
+(* ---------------------------------------------------------------- non-vacuity *)
+(* an ordinary address rewrite (10.0.0.1 -> 192.0.2.1) end to end: unrewritten (58934, 58934), rewritten (58934, 11830), marked *)
+Example c19_e2e_example_rewrite :
+  exists b, run_send BoNetwork ex_cfg4 [] nat_p = (connect_ops false ex_cfg4 ++ [SendTo b [10; 0; 0; 2] 33434], Ok tt) /\
+    nat_outcome b 58934 58934 /\ nat_outcome (snat4 [192; 0; 2; 1] 33434 b) 58934 11830 /\
+    fst (nat_status_of 58934 11830 None) = NatDetected /\ (word_sum [192; 0; 2; 1] - word_sum [10; 0; 0; 1]) mod 65535 <> 0.
+Proof. exact address_rewrite_example. Qed.
+
+(* the computed-zero case: the dispatch transmits checksum 0, the receive path recomputes 0, the hop is not marked *)
+Example c19_e2e_example_computed_zero :
+  issued zero_sc zero_p /\ same_trace zero_sc zero_cfg ex_rc4 /\ cfg_v4 zero_cfg /\
+  udp4_wire_checksum zero_cfg zero_p (repeat 0 56) = 0 /\
+  exists b, run_send BoNetwork zero_cfg [] zero_p = (connect_ops false zero_cfg ++ [SendTo b [10; 0; 0; 2] 55267], Ok tt) /\
+    RecvRoundtrip.u16 b 26 = 0 /\
+    nat_answer zero_sc (recv4 ex_rc4 0 (quote4 [10; 0; 0; 1] nat_peer b)) zero_p [10; 0; 0; 9] 0 0 true /\
+    fst (nat_status_of 0 0 None) = NatNotDetected.
+Proof. exact computed_zero_example. Qed.
+
+(* two devices with and without a responding hop between them; a device whose effect the second one undoes *)
+Example c19_two_devices_example :
+  nat_spec None ([(7, 7)] ++ [(7, 9)] ++ [(7, 4); (7, 4)]) = [NatNotDetected; NatDetected; NatDetected; NatNotDetected] /\
+  nat_spec None ([(7, 7)] ++ [] ++ [(7, 4); (7, 4)]) = [NatNotDetected; NatDetected; NatNotDetected] /\
+  nat_spec None ([(7, 7)] ++ [] ++ [(7, 7); (7, 7)]) = [NatNotDetected; NatNotDetected; NatNotDetected].
+Proof. repeat split; reflexivity. Qed.
+
+(* the hypothesis "the first responding hop beyond the device is the same in every round" of c19_single_device_history
+   matters: when that hop is silent in a later round the next responding hop is marked too and the earlier mark stays *)
+Example c19_mark_moves_with_loss_example :
+  let pr t := {| p_sequence := 33000 + t; p_identifier := 0; p_src_port := 0; p_dest_port := 0; p_ttl := t; p_round := 0; p_sent := 0; p_flags := 0 |} in
+  let c t e a := Complete {| c_probe := pr t; c_host := [10;0;0;t]; c_received := 1000; c_icmp := ITimeExceeded 0; c_tos := None; c_expected := Some e; c_actual := Some a; c_exts := None |} in
+  let r1 := {| rr_probes := [c 1 7 7; c 2 7 9; c 3 7 9]; rr_largest_ttl := 3; rr_reason := RoundTimeLimitExceeded |} in
+  let r2 := {| rr_probes := [c 1 7 7; Awaited (pr 2); c 3 7 9]; rr_largest_ttl := 3; rr_reason := RoundTimeLimitExceeded |} in
+  single_nat_round 2 r1 /\ single_nat_round 3 r2 /\
+  match fs_run (flow_state_new 10) [r1; r2] with
+  | Ok f => map h_last_nat (firstn 3 (fs_hops f)) = [NatNotDetected; NatDetected; NatDetected]
+  | _ => False
+  end.
+Proof. exact mark_moves_with_loss_example. Qed.
